@@ -75,8 +75,23 @@ class _SearchLoopUnroller(ast.NodeTransformer):
     def __init__(self) -> None:
         self.done = 0
 
-    def visit_For(self, node: ast.For) -> ast.AST:
+    @staticmethod
+    def _literal(e: ast.AST) -> bool:
+        return isinstance(e, (ast.Constant, ast.Name)) or (isinstance(e, ast.Tuple) and all(isinstance(x, (ast.Constant, ast.Name)) for x in e.elts))
+
+    def visit_For(self, node: ast.For) -> Any:
         self.generic_visit(node)
+        # plain repetition over a short literal tuple (no break / continue / else): one copy of the body per element
+        if (isinstance(node.target, ast.Name) and isinstance(node.iter, (ast.Tuple, ast.List)) and 1 <= len(node.iter.elts) <= 4 and not node.orelse
+                and all(self._literal(e) for e in node.iter.elts) and any(isinstance(e, ast.Tuple) for e in node.iter.elts)
+                and not any(isinstance(n, (ast.Break, ast.Continue)) or (isinstance(n, ast.Name) and n.id == node.target.id and isinstance(n.ctx, ast.Store))
+                            for st in node.body for n in ast.walk(st))):
+            out: list[ast.stmt] = []
+            for c in node.iter.elts:
+                ren = _Rename({node.target.id: c})
+                out += [ren.visit(copy.deepcopy(st)) for st in node.body]
+            self.done += 1
+            return out
         if not (isinstance(node.target, ast.Name) and isinstance(node.iter, (ast.Tuple, ast.List)) and node.iter.elts
                 and all(isinstance(e, ast.Constant) for e in node.iter.elts) and len(node.iter.elts) <= 8):
             return node
@@ -283,7 +298,8 @@ def _mk_if(test: ast.AST, body: list[ast.stmt], orelse: list[ast.stmt]) -> ast.I
 
 
 def _simple(e: ast.AST) -> bool:
-    return isinstance(e, (ast.Name, ast.Constant)) or (isinstance(e, ast.Attribute) and _simple(e.value))
+    return isinstance(e, (ast.Name, ast.Constant)) or (isinstance(e, ast.Attribute) and _simple(e.value)) or \
+        (isinstance(e, ast.Tuple) and all(isinstance(x, (ast.Name, ast.Constant)) for x in e.elts))
 
 
 class _Inliner:
